@@ -68,3 +68,32 @@ func C13_Length[T signal.SignalTypes]() {
 	b := signal.Alloc[T](signal.Allocator{Channels: C, Length: L, Capacity: K})
 	vf.Assert("length", b.Length() == L)
 }
+
+// C13_Small: small allocations, case-split shapes: pairs of allocations never share storage, also when the
+// first one has spare capacity that is written afterwards.
+func C13_Small[T signal.SignalTypes]() {
+	C := vf.Pick("C", 1, 3)
+	K := vf.Pick("K", 1, 4)
+	L := vf.Pick("L", 0, K)
+	a := signal.Alloc[T](signal.Allocator{Channels: C, Length: L, Capacity: K})
+	b := signal.Alloc[T](signal.Allocator{Channels: C, Length: K, Capacity: K})
+	c := signal.Alloc[T](signal.Allocator{Channels: C, Length: 0, Capacity: K})
+	vf.Assert("shapes", a.Len() == C*L && a.Cap() == C*K && b.Len() == C*K && b.Cap() == C*K && c.Len() == 0 && c.Cap() == C*K)
+	fa := a.Slice(0, K)
+	for i := 0; i < C*K; i++ {
+		vf.Assert("third-is-zero", c.Slice(0, K).Sample(i) == 0 && b.Sample(i) == 0)
+		fa.SetSample(i, 7) // fill the first one over its whole capacity
+	}
+	for i := 0; i < C*K; i++ {
+		vf.Assert("later-allocations-untouched", b.Sample(i) == 0 && c.Slice(0, K).Sample(i) == 0)
+		b.SetSample(i, 9)
+	}
+	for i := 0; i < C*K; i++ {
+		vf.Assert("earlier-allocation-untouched", fa.Sample(i) == 7 && c.Slice(0, K).Sample(i) == 0)
+	}
+	d := signal.Alloc[T](signal.Allocator{Channels: C, Length: L, Capacity: K})
+	for i := 0; i < C*K; i++ {
+		vf.Assert("fresh-allocation-is-zero", d.Slice(0, K).Sample(i) == 0)
+	}
+	vf.Cover("small")
+}
